@@ -74,7 +74,8 @@ class Codec:
         rng = self.rng
         if s is None:
             r = rng.random()
-            s = self.tok_string() if r < 0.4 else (self.csi_string() if r < 0.85 else self.tok_string('\x1b[0123456789;mHK @~?ab\n', 14))
+            s = self.tok_string() if r < 0.35 else (self.csi_string() if r < 0.8 else (
+                self.tok_string('\x1b[0123456789;mHK @~?ab\n', 14) if r < 0.92 else self.tok_string('\x1b[\x9b\x9d\x901;m a', 9)))
         allow, acc = flags if flags else rng.choice([(True, None), (False, None), (False, 'm'), (True, 'm'), (True, 'mJ'), (False, 'HJ'), (False, '~m'), (True, '@')])
         inp = P.line('tokenize', P.e_str(s), P.e_bool(allow), P.e_optstr(acc))
         PS = self.mod.ParsedAnsiControlSequenceString
@@ -338,7 +339,11 @@ class Codec:
             viol.append(('C09', 'error_class', 'scrub %r: %r' % (a, out[1])))
         # "nested lists are flattened in order": wrapping each maximal run of ints in a list of its own
         # must not change the result
-        if a[0] in ('list', 'tuple') and out[0] == 'ok' and any(q[0] == 'int' for q in a[1]):
+        # (not claimed when a string element itself carries integer codes: a colour group given partly as
+        # a string and partly as ints is not one of the documented spellings, and the code joins such
+        # codes only within one nesting level)
+        mixed = any(q[0] == 'str' and any(it.strip().isdigit() for it in q[1].split(';')) for q in a[1]) if a[0] in ('list', 'tuple') else False
+        if a[0] in ('list', 'tuple') and out[0] == 'ok' and any(q[0] == 'int' for q in a[1]) and not mixed:
             wrapped, run = [], []
             for q in a[1]:
                 if q[0] == 'int':
@@ -459,6 +464,32 @@ class Codec:
         st = Step('noop', None, None, 'rejects', ())
         st.viol = viol; st.hist, st.idx = -1, len(self.steps)
         self.steps.append(st)
+
+    NEAR = ['rgb(12, 3, 4)', 'ul_color256(17)', 'bg_rgb(0xA0B0C0)', 'rgb(255,0,0)', 'dul_rgb(0x10,2,3)', 'fg_colour256(0x10)',
+            'color256([ 9 ])', 'rgb([1, 2, 3])', 'red', 'bg_blue', 'bold', 'no_bold_faint', 'double underline', 'fg_default',
+            '38;5;214', '1;31', '[1', 'red;bold', 'ul_rgb((1,2,3))', 'rgb(0x102030)']
+
+    def near_miss(self):
+        """a well-formed directive, then strings that differ from it by one edit (a blank inside a
+        number or a keyword, letter case, a dropped/doubled character): each is accepted or rejected,
+        and reads as, what the model says — whatever was used before in this process"""
+        rng = self.rng
+        base = rng.choice(self.NEAR)
+        self.scrub(('str', base), 'near-miss base %r' % base)
+        for _ in range(4):
+            t = base
+            for _ in range(rng.choice([1, 1, 2])):
+                i = rng.randrange(len(t) + 1)
+                k = rng.randrange(6)
+                if k == 0: t = t[:i] + ' ' + t[i:]
+                elif k == 1 and i < len(t): t = t[:i] + t[i + 1:]
+                elif k == 2 and i < len(t): t = t[:i] + t[i].swapcase() + t[i + 1:]
+                elif k == 3 and i < len(t): t = t[:i] + t[i] + t[i:]
+                elif k == 4: t = t[:i] + rng.choice('_-;,()x0') + t[i:]
+                else: t = t.upper() if rng.random() < 0.5 else t.replace(' ', '')
+            self.scrub(('str', t), 'near-miss %r of %r' % (t, base))
+            if rng.random() < 0.3:
+                self.scrub(('list', [('str', t), ('str', base)]), 'near-miss pair')
 
     def table_entry(self, k=None):
         """the regenerated Lean table, read back through the driver, equals what Python says
